@@ -169,15 +169,18 @@ BindsAlt(v, p) ==
          {FlatS(s) : s \in SeqsOver([i \in 1..Len(p.ps) |-> BindsAlt(v.es[i], p.ps[i])])}
     [] p.k = "or" -> (IF Matches(v, p.l) THEN BindsAlt(v, p.l) ELSE {}) \cup (IF Matches(v, p.r) THEN BindsAlt(v, p.r) ELSE {})
 
-RECURSIVE SiblingOrs(_), HasOr(_)
+RECURSIVE HasOr(_)
 HasOr(p) == CASE p.k = "or" -> TRUE
               [] p.k \in {"tup", "struct", "var"} -> \E i \in 1..Len(p.ps) : HasOr(p.ps[i])
               [] OTHER -> FALSE
-\* two or-patterns in different components of one product / in the two sides of the same alternative
-SiblingOrs(p) == CASE p.k = "or" -> SiblingOrs(p.l) \/ SiblingOrs(p.r)
-                   [] p.k \in {"tup", "struct", "var"} ->
-                        Len(SelectSeq(p.ps, HasOr)) >= 2 \/ \E i \in 1..Len(p.ps) : SiblingOrs(p.ps[i])
-                   [] OTHER -> FALSE
+\* all or-patterns of p form one chain `a | b | c` (right-nested, or-free alternatives) at a single position
+RECURSIVE OrChain(_), SingleOrChain(_)
+OrChain(p) == p.k = "or" /\ ~HasOr(p.l) /\ (~HasOr(p.r) \/ OrChain(p.r))
+SingleOrChain(p) == \/ ~HasOr(p)
+                    \/ OrChain(p)
+                    \/ /\ p.k \in {"tup", "struct", "var"}
+                       /\ Len(SelectSeq(p.ps, HasOr)) = 1
+                       /\ \A i \in 1..Len(p.ps) : SingleOrChain(p.ps[i])
 
 \* ------------------------------------------------------------- typed binder information
 RECURSIVE BinderTys(_, _)     \* types of the names of p, in naming order (left alternative of or-patterns)
@@ -196,6 +199,8 @@ WellFormedOr(ty, p) ==
     [] p.k = "or" -> WellFormedOr(ty, p.l) /\ WellFormedOr(ty, p.r) /\ BinderTys(ty, p.l) = BinderTys(ty, p.r)
     [] OTHER -> TRUE
 
+RECURSIVE StripOr(_)       \* leftmost alternative
+StripOr(p) == IF p.k = "or" THEN StripOr(p.l) ELSE p
 \* a refutable sub-pattern sits inside the payload of a variant of a *generic* (prelude) enum
 RECURSIVE Refutable(_), RefutableInGeneric(_, _)
 Refutable(p) == CASE p.k \in {"wild", "bind"} -> FALSE
@@ -207,6 +212,17 @@ RefutableInGeneric(ty, p) ==
     [] p.k = "var" -> LET fs == ty.vs[VarIdx(ty, p.c)].fs
                       IN \E i \in 1..Len(p.ps) : (ty.builtin /\ Refutable(p.ps[i])) \/ RefutableInGeneric(fs[i].t, p.ps[i])
     [] p.k = "or" -> RefutableInGeneric(ty, p.l) \/ RefutableInGeneric(ty, p.r)
+    [] OTHER -> FALSE
+
+\* a tuple / struct / variant pattern sits directly in the payload position of a variant of a generic enum
+RECURSIVE CompositeInGeneric(_, _)
+CompositeInGeneric(ty, p) ==
+  CASE p.k = "tup" -> \E i \in 1..Len(p.ps) : CompositeInGeneric(ty.ts[i], p.ps[i])
+    [] p.k = "struct" -> \E i \in 1..Len(p.ps) : CompositeInGeneric(ty.fs[i].t, p.ps[i])
+    [] p.k = "var" -> LET fs == ty.vs[VarIdx(ty, p.c)].fs
+                      IN \E i \in 1..Len(p.ps) : (ty.builtin /\ StripOr(p.ps[i]).k \in {"tup", "struct", "var"})
+                                                  \/ CompositeInGeneric(fs[i].t, p.ps[i])
+    [] p.k = "or" -> CompositeInGeneric(ty, p.l) \/ CompositeInGeneric(ty, p.r)
     [] OTHER -> FALSE
 
 \* ------------------------------------------------------------- pattern universes
@@ -337,9 +353,11 @@ ShowDecl(ty) ==
 \* syn: [k "wild"] | [k "num", s] | [k "word", w, args] (variant `W of a, b`, `true`, string text)
 \*      | [k "tup", ps] (`()` is the empty tuple) | [k "struct", n, fs: <<[f, p]>>]
 \* Elab reads a syntax tree as a pattern of type ty; BadPat if it is not a pattern of that type.
-RECURSIVE Elab(_, _)
-Elab(ty, syn) ==
-  LET ElabAll(tys, ss) == [i \in 1..Len(ss) |-> Elab(tys[i], ss[i])]
+\* lenient: a constructor followed only by `_`s denotes all values of that constructor, whatever the number
+\* of `_`s (the compiler prints one `_` per type argument of a generic enum: `none of _`, `ok of _, _`).
+RECURSIVE Elab(_, _, _)
+Elab(ty, syn, lenient) ==
+  LET ElabAll(tys, ss) == [i \in 1..Len(ss) |-> Elab(tys[i], ss[i], lenient)]
       AllGood(ps) == \A i \in 1..Len(ps) : ps[i] # BadPat
   IN
   IF syn.k = "wild" THEN Wild
@@ -354,7 +372,7 @@ Elab(ty, syn) ==
     [] ty.k = "struct" -> IF syn.k = "struct" /\ syn.n = ty.n /\ Len(syn.fs) = Len(ty.fs)
                              /\ \A i \in 1..Len(ty.fs) : \E j \in 1..Len(syn.fs) : syn.fs[j].f = ty.fs[i].f
                           THEN LET ps == [i \in 1..Len(ty.fs) |->
-                                            Elab(ty.fs[i].t, syn.fs[CHOOSE j \in 1..Len(syn.fs) : syn.fs[j].f = ty.fs[i].f].p)]
+                                            Elab(ty.fs[i].t, syn.fs[CHOOSE j \in 1..Len(syn.fs) : syn.fs[j].f = ty.fs[i].f].p, lenient)]
                                IN IF AllGood(ps) THEN PStruct("named", ps) ELSE BadPat
                           ELSE BadPat
     [] ty.k = "enum" ->
@@ -363,8 +381,9 @@ Elab(ty, syn) ==
                   n == Len(fs)
                   allw == [i \in 1..n |-> Wild]
               IN IF syn.args = <<>> THEN PVar(syn.w, "pos", allw)      \* bare constructor name: all its values
+                 ELSE IF lenient /\ \A i \in 1..Len(syn.args) : syn.args[i].k = "wild" THEN PVar(syn.w, "pos", allw)
                  ELSE IF Len(syn.args) # 1 \/ n = 0 THEN BadPat
-                 ELSE IF n = 1 THEN LET q == Elab(fs[1].t, syn.args[1]) IN IF q = BadPat THEN BadPat ELSE PVar(syn.w, "pos", <<q>>)
+                 ELSE IF n = 1 THEN LET q == Elab(fs[1].t, syn.args[1], lenient) IN IF q = BadPat THEN BadPat ELSE PVar(syn.w, "pos", <<q>>)
                  ELSE IF syn.args[1].k = "wild" THEN PVar(syn.w, "pos", allw)
                  ELSE IF syn.args[1].k = "tup" /\ Len(syn.args[1].ps) = n
                       THEN LET ps == ElabAll(FieldTys(fs), syn.args[1].ps) IN IF AllGood(ps) THEN PVar(syn.w, "pos", ps) ELSE BadPat
